@@ -296,6 +296,10 @@ class Universe:
             a, b = sorted(((t1, l1), (t2, l2)), key=lambda p: str(p[0]))
             i = self._add(f"U[{a[1]}|{b[1]}]", ts.UnionType((a[0], b[0])))
             self.unions.append((i, (self.index[a[1]], self.index[b[1]])))
+        # ... and tuples whose element is a union (a union nested in the arguments of a non-union type)
+        for (l1, t1), (l2, t2) in itertools.combinations(inner[:5], 2):
+            a, b = sorted(((t1, l1), (t2, l2)), key=lambda p: str(p[0]))
+            self._add(f"tuple[U[{a[1]}|{b[1]}]]", ts.TupleType((ts.UnionType((a[0], b[0])),)))
 
     def _add(self, label, t) -> int:
         # ``list`` is list[Any] after _fixup_known_generics: keep the first label of equal types
@@ -338,6 +342,8 @@ def type_from_label(type_system, users, label: str):
     if head == "tuple":
         if inner == "()":
             return ts.TupleType(())
+        if inner.startswith("U["):
+            return ts.TupleType((type_from_label(type_system, users, inner),))
         return ts.TupleType(tuple(atom(a) for a in inner.split(",")))
     if head == "U":
         items = [type_from_label(type_system, users, a) for a in inner.split("|")]
